@@ -118,7 +118,11 @@ def parse_directive_text(
         has_options_block = result.has_options
         options = result.options
         body_lines = result.content.splitlines()
-        content_offset = len(content.splitlines()) - len(body_lines)
+        # note, a trailing blank line is lost when the content lines are re-joined,
+        # so is not counted on either side
+        content_offset = len(content.rstrip().splitlines()) - len(
+            result.content.rstrip().splitlines()
+        )
     else:
         parse_warnings = []
         has_options_block = False
